@@ -28,7 +28,7 @@ ASSUMPTIONS = [
     "finite double values only (NaN compares unequal to itself and is outside 'any finite field values')",
     "sky positions are compared as angular separation <= 0.01 arcsec",
 ]
-REQUIRED_OUTCOMES = ["bytes/roundtrip", "fields/roundtrip", "edit/applied", "edit/refused_unchanged"]
+REQUIRED_OUTCOMES = ["bytes/roundtrip", "fields/roundtrip", "edit/applied", "edit/refused_unchanged", "cli/unchanged", "cli/applied"]
 
 ALPHA = {
     "I": [0, 1, 2**31, 2**32 - 1],
@@ -262,7 +262,7 @@ def _cli(wd, shard, ctx, res, only):
     from sigpyproc.apps import spp_header
 
     fields = fx.std_fields(4, 8)
-    fields = [*fields, ("source_name", "J0437-4715"), ("ibeam", 3), ("refdm", 12.5)]
+    fields = [*fields, ("ibeam", 3), ("refdm", 12.5)]
     head = fx.encode_header(fields)
     data = bytes((i * 11 + 5) % 256 for i in range(64))
     p = wd / "cli.fil"
